@@ -276,6 +276,37 @@ def build_constset(w):
         hints={'ext_funcs': XC, 'var_types': {'els': 'Set[Obj]'}})
     return w
 
+def build_exclusive(w):
+    """cardinality.get_object_exclusive_constraints (which object-level exclusive constraints may be used to conclude AT_MOST_ONE from a filter): every constraint it
+    returns is exclusive, has no EXCEPT clause, is not delegated, and all pointers of its subject expression are among the filtered ones -- a constraint with an EXCEPT
+    clause or a delegated one does not make the filtered value unique across the type.   typeutils.is_json: decided on the BASE type (a scalar extending json is json)."""
+    IRTU = 'edb/ir/typeutils.py'
+    w.refclass('ECon', {}); w.refclass('ESub', {'refs': 'Opt[ERefs]'}); w.refclass('ERefs', {}); w.refclass('EPtr', {}, universal=True); w.refclass('ETyp', {}, universal=True)
+    w.refclass('ESch', {}); w.refclass('EEnv', {'schema': 'ESch'})
+    w.ufunc('XCL', ['ECon'], 'bool'); w.ufunc('XEXC', ['ECon'], 'Opt[Obj]'); w.ufunc('XDEL', ['ECon'], 'bool'); w.ufunc('XSUB', ['ECon'], 'Opt[ESub]'); w.ufunc('XREFS', ['ERefs'], 'Seq[EPtr]')
+    w.ufunc('XCONS', ['ETyp'], 'Seq[ECon]')
+    w.ext_methods['ESch.get'] = dict(params={'n': 'str', 'type': 'Obj'}, returns='Obj')
+    w.ext_methods['ETyp.get_nearest_non_derived_parent'] = dict(params={'s': 'ESch'}, returns='ETyp')
+    w.refclass('EColl', {}); w.ufunc('ECOLL', ['EColl'], 'Seq[ECon]')
+    w.ext_methods['ETyp.get_constraints'] = dict(params={'s': 'ESch'}, returns='EColl')
+    w.ext_methods['EColl.objects'] = dict(params={'s': 'ESch'}, returns='Seq[ECon]', returns_expr='ECOLL(self)')
+    w.ext_methods['ECon.issubclass'] = dict(params={'s': 'ESch', 'p': 'Obj'}, returns='bool', returns_expr='XCL(self)')
+    w.ext_methods['ECon.get_subjectexpr'] = dict(params={'s': 'ESch'}, returns='Opt[ESub]', returns_expr='XSUB(self)')
+    w.ext_methods['ECon.get_except_expr'] = dict(params={'s': 'ESch'}, returns='Opt[Obj]', returns_expr='XEXC(self)')
+    w.ext_methods['ECon.get_delegated'] = dict(params={'s': 'ESch'}, returns='bool', returns_expr='XDEL(self)')
+    w.ext_methods['ERefs.objects'] = dict(params={'s': 'ESch'}, returns='Seq[EPtr]', returns_expr='XREFS(self)')
+    # (stated for one arbitrary constraint K and one arbitrary pointer P -- ghost constants -- so that the VCs stay ground and a broken body gets a definite verdict)
+    GOODK = lambda m: 'implies(K in %s, XCL(K) and is_none(XEXC(K)) and not XDEL(K) and implies(P in %s[K], P in ptr_set))' % (m, m)
+    w.contract(CARD, 'get_object_exclusive_constraints', params={'typ': 'ETyp', 'ptr_set': 'Set[EPtr]', 'env': 'EEnv'}, returns='Map[ECon,Set[EPtr]]',
+        ghost={'K': 'ECon', 'P': 'EPtr'}, ensures=[GOODK('result')],
+        loops={0: dict(fingerprint='for constr in typ.get_constraints(schema).objects(schema)', index='i', invariant=[GOODK('cnstrs')])},
+        hints={'var_types': {'cnstrs': 'Map[ECon,Set[EPtr]]'}})
+    w.refclass('JRef', {'real_base_type': 'JRef', 'real_material_type': 'JRef', 'id': 'Obj'})
+    w.ufunc('KTID', ['str'], 'Obj'); w.ext_funcs['s_obj.get_known_type_id'] = dict(params={'n': 'str'}, returns='Obj', returns_expr='KTID(n)')
+    w.contract(IRTU, 'is_json', params={'typeref': 'JRef'}, returns='bool', ensures=['result == (typeref.real_base_type.id == KTID("std::json"))'])
+    w.contract(IRTU, 'is_bytes', params={'typeref': 'JRef'}, returns='bool', ensures=['result == (typeref.real_base_type.id == KTID("std::bytes"))'])
+    return w
+
 def build():
     w = World('C06')
     w.enum('Card', QLT, 'Cardinality')
@@ -389,6 +420,7 @@ def build():
     build_disjointness(w)
     build_funccall(w)
     build_constset(w)
+    build_exclusive(w)
     # ---- what is sent to clients
     w.contract(ENUMS, 'cardinality_from_ir_value', params={'card': 'Card'}, returns='OutCard',
                requires=['known(card)'],
